@@ -18,6 +18,12 @@ impl<'a> Index<'a> {
     ///
     /// The caller must specify whether the data comes from a `CFF2` table.
     pub fn new(data: &'a [u8], is_cff2: bool) -> Result<Self, Error> {
+        // "An empty INDEX is represented by a count field with a 0 value and no additional fields":
+        // 2 bytes in CFF, 4 bytes in CFF2; such an INDEX may be the last thing in the table.
+        let count_len = if is_cff2 { 4 } else { 2 };
+        if data.len() >= count_len && data[..count_len].iter().all(|b| *b == 0) {
+            return Ok(Self::Empty);
+        }
         let data = FontData::new(data);
         Ok(if is_cff2 {
             Index2::read(data).map(|ix| ix.into())?
